@@ -373,6 +373,31 @@ Search(d, T, O) == SearchM(d, Tab(d, T), O)
 Ids(rs) == [j \in 1..Len(rs) |-> rs[j].id]
 
 (***************************************************************************)
+(* Several documents (process_yaml_file, print_results).  A stream is      *)
+(* searched document by document and NOTHING is carried from one document  *)
+(* to the next: seen_anchors starts empty for each (anchors do not cross   *)
+(* documents), all_anchors is rescanned, and the "record only unique       *)
+(* results" list is per document.  What is printed for a file or STDIN     *)
+(* stream: per document, in stream order, the paths of that document's     *)
+(* search, each text once (first occurrence), every line prefixed          *)
+(* "<name>/<index>: " (index from 0, counted over every document of the    *)
+(* stream incl. empty ones; the prefix is omitted with --nofile); a        *)
+(* document without results prints nothing; several files follow one       *)
+(* another, each counted from 0.                                           *)
+(***************************************************************************)
+SearchStreamX(ds, T, O) == [i \in 1..Len(ds) |-> SearchRunX(ds[i].d, ds[i].sx, TabX(ds[i].d, ds[i].sx, T), O).out]   \* ds[i] = [d, sx]
+SearchStream(docs, T, O) == [i \in 1..Len(docs) |-> Search(docs[i], T, O)]
+RECURSIVE DedupAcc(_, _)
+DedupAcc(xs, acc) == IF Len(xs) = 0 THEN acc
+                     ELSE DedupAcc(Tail(xs), IF \E j \in 1..Len(acc) : acc[j] = xs[1] THEN acc ELSE Append(acc, xs[1]))
+DocLines(name, idx, rs, sepc) ==         \* rs: the results of one document's search
+  LET ps == DedupAcc([j \in 1..Len(rs) |-> Printed(rs[j].steps, sepc)], <<>>) IN
+  [j \in 1..Len(ps) |-> name \o "/" \o NatStr(idx) \o ": " \o ps[j]]
+StreamLines(name, docs, T, O, sepc) ==
+  LET rss == SearchStream(docs, T, O) IN Flatten([i \in 1..Len(docs) |-> DocLines(name, i - 1, rss[i], sepc)])
+EmptyDocument == <<Node("s", "null", "", 0)>>       \* "---" with nothing after it: no arm of the search applies
+
+(***************************************************************************)
 (* Declarative: which positions a search must report.                      *)
 (*   "-k search key names in addition to values and array elements",       *)
 (*   "-K only search key names", "-a also search the names of &anchor and  *)
